@@ -56,6 +56,8 @@ def ev(e, p, T):
             r = ev(x, p, T)
             far = max(far, r[4])
             if r[0] != 0:
+                if r[0] == 2 and r[2] < 1000:
+                    return (2, r[1], r[2], r[3], far)
                 return (1, r[1], 0, 0, far) if r[0] == 1 else r
         return (0, p, 0, 0, far)
     if n == 'opt':
@@ -185,6 +187,7 @@ HARNESS = r'''/* generated harness: real rule over symbolic sub-rules vs PEG ref
 #define SP_N %(N)d
 #define SP_K %(K)d
 #define SP_MAXRES %(maxres)d
+#define SP_BYTES %(bytes)d
 #include "verif.h"
 #include "symtab.h"
 
@@ -232,7 +235,7 @@ static void harness(void) {
 '''
 
 
-def harness_text(case, N, K, doc, maxres=3, variants=('ar', 'ao', 'nr', 'no')):
+def harness_text(case, N, K, doc, maxres=3, variants=('ar', 'ao', 'nr', 'no'), bytes_=False):
     g = pegspec.Gen()
     e = lower(parse(case['spec']), doc)
     fn = g.fn(e)
@@ -254,5 +257,5 @@ def harness_text(case, N, K, doc, maxres=3, variants=('ar', 'ao', 'nr', 'no')):
         reach.append('  REACH(e.r == 2 && e.id >= 1000, "exception from a sub-rule propagates");')
     if 'foreign' in seen:
         reach.append('  REACH(e.r == 3, "foreign exception propagates");')
-    return HARNESS % {'N': N, 'K': K, 'maxres': maxres, 'spec': g.text(), 'specfn': fn, 'calls': '\n'.join(calls), 'reach': '\n'.join(reach),
+    return HARNESS % {'N': N, 'K': K, 'maxres': maxres, 'bytes': 1 if bytes_ else 0, 'spec': g.text(), 'specfn': fn, 'calls': '\n'.join(calls), 'reach': '\n'.join(reach),
                       'alldefs': '\n'.join('#define V_%s 1' % v for v in variants)}, repr(e), sorted(seen)
